@@ -260,6 +260,13 @@ impl WorldB {
                 obs.count("epilogue.liveness_skipped_half_open_entry_reset_by_other_token");
                 continue;
             }
+            // a client that is already responding needs its half-open entry: the server drops that entry when a response
+            // arrives while the id is connected elsewhere, and a responding client does not send requests any more
+            let last_emitted = self.ledger.iter().rev().find(|r| r.producer == Producer::Client { slot: j, epoch: s.epoch }).map(|r| r.ptype);
+            if last_emitted == Some(T_RESPONSE) && self.pend_model.get(&s.addr).map(|p| p.0 != s.tid).unwrap_or(true) {
+                obs.count("epilogue.liveness_skipped_responding_without_half_open_entry");
+                continue;
+            }
             // a denial issued while the server was full may still be in flight
             if s.s2c.iter().any(|&ix| self.ledger[ix].ptype == T_DENIED) {
                 continue;
